@@ -76,6 +76,7 @@ class ScriptedSearch(af.NonLinearSearch):
         internal = {
             "vectors": [[float(x) for x in v[:n]] for v in script["vectors"]],
             "logl": [float(x) for x in script["logl"]],
+            "logp": [float(x) for x in script.get("logp", [0.0] * len(script["logl"]))],
         }
         if script.get("interrupt") == "after_samples":
             # a killed run that had already written an intermediate update
@@ -91,7 +92,7 @@ class ScriptedSearch(af.NonLinearSearch):
             model=model,
             parameter_lists=vectors,
             log_likelihood_list=search_internal["logl"],
-            log_prior_list=[0.0] * len(vectors),
+            log_prior_list=search_internal.get("logp") or [0.0] * len(vectors),
             weight_list=[1.0] * len(vectors),
         )
         return Samples(model=model, sample_list=sample_list, samples_info={"total_samples": len(vectors), "time": None})
